@@ -865,6 +865,7 @@ func runC20(c *Ctx) {
 	ruleDerivedFields(c, p, "C20.derived")
 	ruleRowUniform(c, p, "C20.row-uniform")
 	ruleTicksOfArgument(c, p, "C20.ticks-of-arg")
+	ruleDayCarry(c, p, "C20.day-carry")
 	rulePerElementZone(c, p, "C20.per-element")
 
 	// ---- C20.family
@@ -1679,4 +1680,64 @@ func intervalCaseFold(add *ssa.Function, kv int64) (call *ssa.Call, coef func(v 
 		return 0, false, false
 	}
 	return calls[0], func(v ssa.Value) (int64, bool, bool) { return co(v, 0) }, true
+}
+
+// ruleDayCarry (C20): a carry into the next day happens at 86400 seconds, not after.
+func ruleDayCarry(c *Ctx, p *core.Program, rule string) {
+	c.R.Rule(rule, "in the day conversions of package proto (ToDate, ToDate32 and the helpers they call) a comparison of a seconds value with the length of a day (the constant 86400) that decides whether the day number is stepped treats 86400 itself as the next day: `x >= 86400` / `x < 86400`, never `x > 86400` / `x <= 86400` - seconds-of-day plus a zone offset equal to exactly one day is local midnight, and with `>` an instant at 00:00:00 in a zone east of UTC is stored as the previous calendar day")
+	cfg := p.Cfg.Name
+	n, nf := 0, 0
+	seen := map[*ssa.Function]bool{}
+	for _, name := range []string{"ToDate", "ToDate32"} {
+		root := p.Func(core.PkgProto, name)
+		if root == nil {
+			continue
+		}
+		for fn := range core.StaticReach(root, 2) {
+			if fn.Blocks == nil || pkgOf(fn) == nil || pkgOf(fn).Path() != core.PkgProto || seen[fn] {
+				continue
+			}
+			seen[fn] = true
+			nf++
+			for _, b := range fn.Blocks {
+				for _, in := range b.Instrs {
+					bo, ok := in.(*ssa.BinOp)
+					if !ok {
+						continue
+					}
+					ky, oky := core.ConstInt(bo.Y)
+					kx, okx := core.ConstInt(bo.X)
+					op := bo.Op
+					if okx && kx == 86400 && !oky {
+						// 86400 OP x  ==  x OP' 86400
+						switch op {
+						case token.LSS:
+							op = token.GTR
+						case token.GTR:
+							op = token.LSS
+						case token.LEQ:
+							op = token.GEQ
+						case token.GEQ:
+							op = token.LEQ
+						}
+					} else if !(oky && ky == 86400) {
+						continue
+					}
+					switch op {
+					case token.GTR, token.LEQ:
+						n++
+						c.R.Bad(rule, core.FuncName(fn)+sprintf("/cmp#%d", n), cfg, p.Pos(bo.Pos()), "a seconds value is compared with one day using a strict/non-strict pair that leaves exactly 86400 on the wrong side: local midnight east of UTC lands on the previous day")
+					case token.GEQ, token.LSS:
+						n++
+						c.R.Ok(rule, core.FuncName(fn)+sprintf("/cmp#%d", n), cfg, p.Pos(bo.Pos()), "86400 counts as the next day")
+					}
+				}
+			}
+		}
+	}
+	if n == 0 {
+		c.R.Ok(rule, "day-conversions", cfg, "", sprintf("%d functions behind ToDate / ToDate32 examined, no carry comparison with the day length", nf)).Trivial = true
+	}
+	c.R.Count("functions behind the day conversions", nf)
+	c.R.Floor(rule, cfg, nf, 2)
 }
